@@ -1364,6 +1364,8 @@ class SourceFinder(object):
         if "lon" in self.global_data.header["CTYPE1"].lower():
             self.log.info("Galactic coordinates detected and noted")
             SimpleSource.galactic = True
+        else:
+            SimpleSource.galactic = False
         return
 
     def save_background_files(
